@@ -41,6 +41,24 @@ impl Keys {
     }
 }
 
+/// the same signer set written with NON-MINIMAL numbers: a leading zero byte in the threshold and / or in a weight.
+/// It decodes to the same set (so it has the same canonical hash), but the bytes — and their keccak — differ.
+pub fn enc_signers_padded(keys: &[Vec<u8>], weights: &[u128], threshold: u128, nonce: &[u8], pad_threshold: bool, pad_weight: Option<usize>) -> Vec<u8> {
+    let padded = |n: u128| -> Vec<u8> {
+        let mut b = vec![0u8];
+        b.extend(nat(n));
+        nest_buf(&b)
+    };
+    let mut v = u32be(keys.len());
+    for (i, (k, w)) in keys.iter().zip(weights).enumerate() {
+        v.extend_from_slice(k);
+        if pad_weight == Some(i) { v.extend(padded(*w)) } else { v.extend(nest_big(*w)) }
+    }
+    if pad_threshold { v.extend(padded(threshold)) } else { v.extend(nest_big(threshold)) }
+    v.extend_from_slice(nonce);
+    v
+}
+
 pub fn enc_signers_raw(keys: &[Vec<u8>], weights: &[u128], threshold: u128, nonce: &[u8]) -> Vec<u8> {
     let mut v = u32be(keys.len());
     for (k, w) in keys.iter().zip(weights) {
@@ -461,6 +479,13 @@ pub fn gen(rng: &mut Rng, n: usize, sink: &mut Sink, focus: &str) {
                     malformed_set(rng, &gw.keys)
                 } else if rng.chance(1, 8) && !gw.sets.is_empty() {
                     rng.pick(&gw.sets).enc(&gw.keys) // duplicate
+                } else if rng.chance(1, 7) {
+                    // a set written with non-minimal numbers: a registered one (still a duplicate) or a fresh one (registered
+                    // under its canonical hash, found there afterwards)
+                    let s0 = if rng.chance(1, 2) && !gw.sets.is_empty() { rng.pick(&gw.sets).clone() } else { rand_set(rng, 6) };
+                    let ks: Vec<Vec<u8>> = s0.keys.iter().map(|i| gw.keys.pk(*i)).collect();
+                    let pw = if rng.chance(1, 2) && !ks.is_empty() { Some(rng.below(ks.len() as u64) as usize) } else { None };
+                    enc_signers_padded(&ks, &s0.weights, s0.threshold, &s0.nonce, pw.is_none() || rng.chance(1, 2), pw)
                 } else {
                     rand_set(rng, 6).enc(&gw.keys)
                 };
@@ -486,6 +511,9 @@ pub fn gen(rng: &mut Rng, n: usize, sink: &mut Sink, focus: &str) {
                 gw.query(sink, "epoch", &[]);
                 gw.query(sink, "lastRotationTimestamp", &[]);
                 gw.query(sink, "epochBySignerHash", &[keccak(&raw)]);
+                if let Some(s) = parse_set(&raw, &gw.keys) {
+                    gw.query(sink, "epochBySignerHash", &[s.hash(&gw.keys)]);
+                }
             } else if r < w_approve + w_rotate + w_validate {
                 // validateMessage by right / wrong caller with right / wrong fields
                 if gw.msgs.is_empty() {
@@ -493,10 +521,15 @@ pub fn gen(rng: &mut Rng, n: usize, sink: &mut Sink, focus: &str) {
                 }
                 let mut m = rng.pick(&gw.msgs).clone();
                 let caller = if rng.chance(2, 3) { m.contract.clone() } else { rng.pick(&dests).clone() };
-                match rng.below(6) {
+                match rng.below(8) {
                     0 => m.ph = rng.bytes(32),
                     1 => m.src = b"other-src".to_vec(),
                     2 => m.chain = b"zzz".to_vec(),
+                    // the same source address / chain / id in another letter case is another address / chain / id
+                    3 => m.src = crate::gen::its::flip_case(&m.src, rng.chance(1, 2)),
+                    4 => {
+                        if rng.chance(1, 2) { m.chain = crate::gen::its::flip_case(&m.chain, true) } else { m.id = crate::gen::its::flip_case(&m.id, true) }
+                    }
                     _ => {}
                 }
                 gw.tx(sink, &caller, "validateMessage", &[m.chain.clone(), m.id.clone(), m.src.clone(), m.ph.clone()]);
